@@ -16,4 +16,5 @@ for c in $CHECKS; do
   echo "$c rc=$rc $(echo "$out" | grep -E '^(VIOLATION \[|UNDECIDABLE|ANCHOR|CONTROL|NO VERDICT)' | sed -E 's/ at .*//' | cut -c1-120 | sort -u | head -${NSHOW:-3} | paste -sd';')"
   [ -n "$VERBOSE" ] && [ $rc -ne 0 ] && echo "$out" | grep -vE "^WARN" | head -${VERBOSE}
 done
-rm -rf "$SCR" "$EV" "$HERE"/.work/facts-${TAG}_repo-*
+WT=$(echo -n "$(readlink -f "$SCR")" | md5sum | cut -c1-8)
+rm -rf "$SCR" "$EV" "$HERE"/.work/facts-${TAG}_repo-* "$HERE"/.work/witness-*-"$WT"
